@@ -382,6 +382,8 @@ Proof.
     destruct IH as [L2 B2]. split; [lia|nia].
 Qed.
 
+Ltac arith := first [lia | nia].
+
 Section Bounded.
   Variable odec : string -> bytes -> ores.
   Variable ochk : string -> bytes -> Z.
@@ -397,94 +399,94 @@ Section Bounded.
   Proof.
     induction f; intros Hb env bs; pose proof (bound_nonneg _ Hb) as [NA NB];
       cbn [bounded] in Hb; unfold alloc_ok; cbn [decode min_size bound_A bound_B] in *; unfold zlen in *.
-    - (* FUInt *) destruct (take_n w bs) as [[x r]|] eqn:T; [|lia].
-      apply take_n_some in T. split; lia.
-    - (* FSInt *) destruct (take_n w bs) as [[x r]|] eqn:T; [|lia].
-      apply take_n_some in T. split; lia.
-    - (* FBool *) destruct bs; [lia|]. cbn [length]. split; lia.
-    - (* FVarInt *) destruct (varint_dec bs) as [[v r]|] eqn:V; [|lia].
-      apply varint_dec_len in V. split; lia.
-    - (* FBytes *) destruct (take_n n bs) as [[x r]|] eqn:T; [|lia].
-      apply take_n_some in T. split; lia.
+    - (* FUInt *) destruct (take_n w bs) as [[x r]|] eqn:T; [|arith].
+      apply take_n_some in T. split; arith.
+    - (* FSInt *) destruct (take_n w bs) as [[x r]|] eqn:T; [|arith].
+      apply take_n_some in T. split; arith.
+    - (* FBool *) destruct bs; [arith|]. cbn [length]. split; arith.
+    - (* FVarInt *) destruct (varint_dec bs) as [[v r]|] eqn:V; [|arith].
+      apply varint_dec_len in V. split; arith.
+    - (* FBytes *) destruct (take_n n bs) as [[x r]|] eqn:T; [|arith].
+      apply take_n_some in T. split; arith.
     - (* FVarBytes *)
-      destruct (varint_dec bs) as [[n r]|] eqn:V; [|destruct sh as [[m|]|]; rewrite ?small_limit_val; lia].
+      destruct (varint_dec bs) as [[n r]|] eqn:V; [|destruct sh as [[m|]|]; rewrite ?small_limit_val; arith].
       apply varint_dec_len in V.
       destruct sh as [[m|]|]; try discriminate.
       + cbn [over_limit]. rewrite small_limit_val, makeslice_limit_val in *.
-        destruct (m <? n) eqn:E1; [lia|].
-        destruct (281474976710656 <? n) eqn:E2; [lia|].
-        destruct (take_z n r) as [[x r']|] eqn:T; [|lia].
+        destruct (m <? n) eqn:E1; [arith|].
+        destruct (281474976710656 <? n) eqn:E2; [arith|].
+        destruct (take_z n r) as [[x r']|] eqn:T; [|arith].
         apply take_z_some in T. unfold zlen in T. destruct T as (_ & T1 & T2 & T3).
         unfold checked. destruct chk as [nm|].
-        * destruct (ochk_nopanic nm x) as [O|O]; rewrite O; cbn [Z.eqb Pos.eqb]; [split; lia|lia].
-        * split; lia.
-      + destruct (take_z n r) as [[x r']|] eqn:T; [|unfold zlen; lia].
+        * destruct (ochk_nopanic nm x) as [O|O]; rewrite O; cbn [Z.eqb Pos.eqb]; [split; arith|arith].
+        * split; arith.
+      + destruct (take_z n r) as [[x r']|] eqn:T; [|unfold zlen; arith].
         apply take_z_some in T. unfold zlen in T. destruct T as (_ & T1 & T2 & T3).
         unfold checked. destruct chk as [nm|].
-        * destruct (ochk_nopanic nm x) as [O|O]; rewrite O; cbn [Z.eqb Pos.eqb]; [split; lia|lia].
-        * split; lia.
+        * destruct (ochk_nopanic nm x) as [O|O]; rewrite O; cbn [Z.eqb Pos.eqb]; [split; arith|arith].
+        * split; arith.
     - (* FList *)
       assert (HS : exists esz, 0 <= esz /\ (1 <= min_size f)%nat /\ bounded f = true /\
                     app_cost sh = (match sh with LPre _ _ => 0 | LApp e _ => 2 * e end) /\
                     (forall c, match list_header sh c with
                                | HOk a0 => a0 <= small_limit | HErr => True | HPanic => False end)).
       { destruct sh as [esz [m|]|esz cap]; try discriminate.
-        - repeat (apply andb_prop in Hb as [Hb ?]). exists esz. repeat split; try lia; auto.
+        - repeat (apply andb_prop in Hb as [Hb ?]). exists esz. repeat split; try arith; auto.
           intros c. cbn [list_header over_limit]. rewrite small_limit_val, makeslice_limit_val in *.
           destruct (m <? c) eqn:E1; auto.
-          destruct (281474976710656 <? c * esz) eqn:E2; nia.
-        - repeat (apply andb_prop in Hb as [Hb ?]). exists esz. repeat split; try lia; auto.
-          intros c. cbn [list_header]. rewrite small_limit_val in *. nia. }
+          destruct (281474976710656 <? c * esz) eqn:E2; arith.
+        - repeat (apply andb_prop in Hb as [Hb ?]). exists esz. repeat split; try arith; auto.
+          intros c. cbn [list_header]. rewrite small_limit_val in *. arith. }
       destruct HS as (esz & He & Hmin & Hbg & Hac & Hh).
       destruct (bound_nonneg _ Hbg) as [NAg NBg].
-      destruct (varint_dec bs) as [[c r]|] eqn:V; [|nia].
+      destruct (varint_dec bs) as [[c r]|] eqn:V; [|arith].
       apply varint_dec_len in V. specialize (Hh c).
-      destruct (list_header sh c) as [a0| |]; [|lia|auto].
-      assert (Hpe : 0 <= app_cost sh) by (rewrite Hac; destruct sh; lia).
+      destruct (list_header sh c) as [a0| |]; [|arith|auto].
+      assert (Hpe : 0 <= app_cost sh) by (rewrite Hac; destruct sh; arith).
       pose proof (repeat_bound (dec f env) (bound_A f) (bound_B f) (app_cost sh) NAg NBg Hpe) as RB.
       unfold zlen in RB.
       specialize (RB (fun bs0 => ltac:(
         pose proof (IHf Hbg env bs0) as P; unfold alloc_ok, zlen in P;
-        destruct (dec f env bs0); [destruct P; split; lia|exact P|exact P])) (length r) c r).
-      destruct (repeat_dec (dec f env) (app_cost sh) (length r) c r) as [l r' a|a|]; [|nia|auto].
-      destruct RB as [L B]. split; [lia|nia].
+        destruct (dec f env bs0); [destruct P; split; arith|exact P|exact P])) (length r) c r).
+      destruct (repeat_dec (dec f env) (app_cost sh) (length r) c r) as [l r' a|a|]; [|arith|auto].
+      destruct RB as [L B]. split; [arith|arith].
     - (* FListOf *)
       repeat (apply andb_prop in Hb as [Hb ?]).
       rename H into Hbg. rename H0 into Hmin.
       destruct (bound_nonneg _ Hbg) as [NAg NBg].
-      destruct (env_count env path) as [c|]; [|nia].
-      assert (Hpe : 0 <= elem_cost sh) by lia.
+      destruct (env_count env path) as [c|]; [|arith].
+      assert (Hpe : 0 <= elem_cost sh) by arith.
       pose proof (repeat_bound (dec f env) (bound_A f) (bound_B f) (elem_cost sh) NAg NBg Hpe) as RB.
       unfold zlen in RB.
       specialize (RB (fun bs0 => ltac:(
         pose proof (IHf Hbg env bs0) as P; unfold alloc_ok, zlen in P;
-        destruct (dec f env bs0); [destruct P; split; lia|exact P|exact P])) (length bs) c bs).
-      destruct (repeat_dec (dec f env) (elem_cost sh) (length bs) c bs) as [l r' a|a|]; [|nia|auto].
-      destruct RB as [L B]. split; [lia|nia].
+        destruct (dec f env bs0); [destruct P; split; arith|exact P|exact P])) (length bs) c bs).
+      destruct (repeat_dec (dec f env) (elem_cost sh) (length bs) c bs) as [l r' a|a|]; [|arith|auto].
+      destruct RB as [L B]. split; [arith|arith].
     - (* FOpt *)
-      destruct bs as [|b r]; [lia|]. cbn [length].
-      destruct (b =? 0); [split; lia|].
+      destruct bs as [|b r]; [arith|]. cbn [length].
+      destruct (b =? 0); [split; arith|].
       pose proof (IHf Hb env r) as P. unfold alloc_ok, zlen in P.
-      destruct (dec f env r) as [v r' a|a|]; [|nia|auto].
-      destruct P as [L B]. split; [lia|nia].
-    - (* FNil *) split; lia.
+      destruct (dec f env r) as [v r' a|a|]; [|arith|auto].
+      destruct P as [L B]. split; [arith|arith].
+    - (* FNil *) split; arith.
     - (* FField *)
       apply andb_prop in Hb as [H1 H2].
       destruct (bound_nonneg _ H1) as [NA1 NB1]. destruct (bound_nonneg _ H2) as [NA2 NB2].
       pose proof (IHf1 H1 env bs) as P1. unfold alloc_ok, zlen in P1.
-      destruct (dec f1 env bs) as [v r a1|a1|]; [|nia|auto].
+      destruct (dec f1 env bs) as [v r a1|a1|]; [|arith|auto].
       destruct P1 as [L1 B1].
       pose proof (IHf2 H2 ((name, v) :: env) r) as P2. unfold alloc_ok, zlen in P2.
-      destruct (dec f2 ((name, v) :: env) r) as [v2 r' a2|a2|]; [|nia|auto].
+      destruct (dec f2 ((name, v) :: env) r) as [v2 r' a2|a2|]; [|arith|auto].
       destruct P2 as [L2 B2].
-      destruct v2; try nia. split; [lia|nia].
+      destruct v2; arith.
     - (* FStruct *) exact (IHf Hb [] bs).
     - (* FOpaque *)
       pose proof (odec_nopanic name bs) as NP.
-      destruct (odec name bs) as [n| |]; [|lia|congruence].
-      destruct (n =? 0)%nat eqn:E0; cbn [orb]; [lia|].
-      destruct (length bs <? n)%nat eqn:E1; [lia|].
-      rewrite skipn_length. unfold opaque_alloc in *. split; lia.
+      destruct (odec name bs) as [n| |]; [|arith|congruence].
+      destruct (n =? 0)%nat eqn:E0; cbn [orb]; [arith|].
+      destruct (length bs <? n)%nat eqn:E1; [arith|].
+      rewrite skipn_length. unfold opaque_alloc in *. split; arith.
     - discriminate.
   Qed.
 
